@@ -85,7 +85,14 @@ func genSegment(s sim.Source, depth int, cfg PoolCfg, prevCatch bool) (seg strin
 	}
 }
 
+// oddHostLabels adds labels with upper-case letters: registered hostnames are kept and matched byte for byte.
+var oddHostLabels = append(append([]string(nil), hostLabels...), "Ab", "B")
+
 func genHost(s sim.Source, odd bool) string {
+	hostLabels := hostLabels
+	if odd {
+		hostLabels = oddHostLabels
+	}
 	n := 1 + s.Intn("hostlabels", 3)
 	labs := make([]string, n)
 	for i := range labs {
@@ -177,7 +184,11 @@ func mutate(s sim.Source, p string, cfg PoolCfg) string {
 				labs := strings.Split(host, ".")
 				i := s.Intn("hlabel", len(labs))
 				if !strings.ContainsAny(labs[i], "{}") || len(labs) > 1 {
-					labs[i] = sim.Pick(s, "hls", hostLabels)
+					if cfg.Odd {
+						labs[i] = sim.Pick(s, "hls", oddHostLabels)
+					} else {
+						labs[i] = sim.Pick(s, "hls", hostLabels)
+					}
 				}
 				host = strings.Join(labs, ".")
 			}
@@ -300,6 +311,11 @@ func Instantiate(s sim.Source, p *model.Pattern) (host, path string) {
 		case model.TStatic:
 			sb.WriteByte(t.B)
 		case model.TParam:
+			if p.Host != "" && !strings.Contains(sb.String(), "/") && s.Intn("bracehost", 12) == 0 {
+				// a host label part is any non-empty dot-free text: also text that looks like a wildcard
+				sb.WriteString(sim.Pick(s, "braceval", []string{"{v}", "{h1}", "a{", "{", "}", "*{v}"}))
+				break
+			}
 			if s.Intn("longval", 24) == 0 {
 				// a parameter stands for text of any length: longer than the 63/255 bytes that bound registered host
 				// labels and names, and than any buffer sized from the registered patterns
@@ -371,6 +387,15 @@ func GenProbe(s sim.Source, pool []*model.Pattern, methods []string) Probe {
 	case 6:
 		if len(segs) > 0 {
 			segs[len(segs)-1] += sim.Pick(s, "xb", []string{"a", "b"})
+		}
+	case 7:
+		// dot elements: ordinary non-empty segments for routing (a wildcard captures them), but not a clean path
+		if len(segs) > 0 && s.Intn("dotseg", 2) == 1 {
+			i := len(segs) - 1
+			if s.Intn("dotlast", 2) == 0 {
+				i = s.Intn("dotat", len(segs))
+			}
+			segs[i] = sim.Pick(s, "dot", []string{".", ".."})
 		}
 	}
 	path = "/" + strings.Join(segs, "/")
